@@ -123,7 +123,13 @@ def main():
     seed = int(os.environ.get("VERIF_SEED", "0") or 0)
     t0 = time.time()
     known = registry.known_functions()
-    facts = Facts(wx.extract(a.src, "dev"), known=known)
+    try:
+        facts = Facts(wx.extract(a.src, "dev"), known=known)
+    except wx.ExtractError as e:
+        # the tree does not build (or the driver could not run): nothing can be decided, and that is
+        # not a property violation -- exit status 2, no VIOLATION line
+        print("CANNOT-ANALYSE property=%s: the source tree does not build under `cargo +nightly check --offline`\n%s" % (prop, str(e)[-1500:]))
+        return 2
     ctx, rids = run_property(prop, facts, a.tier)
     configs = ["dev"]
     if a.tier == "thorough":
